@@ -43,6 +43,20 @@ PROPS = {
                      "empty and universal languages); Complement judged by isComplM (proved, both clauses); non-trivial = both "
                      "L(A) and L(C) non-empty",
                 assumptions=PROOF_ASSUME),
+    "C09": dict(level="proof", kinds=[("nfah_incl", 1)], n=dict(quick=5000, thorough=100000, search=5000),
+                rule="pairs of NFAs (several start states, start∧final, dead / unreachable states, symbols in one operand only, "
+                     "overlapping and sparse numbers; B mutated from / a nondeterministic split of A); antichains, congruence "
+                     "depth / breadth and the default overload through the API on raw operands, each verdict judged against the "
+                     "proved reference inclW (both directions per pair); a call that does not return within 5 s counts as a "
+                     "violation (state spaces are ≤ 2^9); non-trivial = L(A) non-empty",
+                assumptions=PROOF_ASSUME),
+    "C10": dict(level="proof", kinds=[("nfah_ops", 1)], n=dict(quick=3000, thorough=60000, search=4000),
+                rule="histories of Union / UnionDisjointStates (repeated with one left operand and right operands sharing "
+                     "numbers) / Intersection / Reverse / RemoveUnreachableStates / RemoveUselessStates / GetCandidateTree on a "
+                     "pool of NFAs incl. results of earlier steps; every result judged by isUnionW / isIsectW / equivW / inclW / "
+                     "emptyW (proved), every live automaton re-read after every step; non-trivial = some product or witness "
+                     "non-empty",
+                assumptions=PROOF_ASSUME),
     "C14": dict(level="proof", kinds=[("rename", 1)], n=dict(quick=3000, thorough=60000, search=4000),
                 rule="ReindexStates (functor / functor without final states / into an existing destination / weak translator / "
                      "fresh translator), CollapseStates, TranslateSymbols with injective, merging, identity and sparse maps, "
@@ -90,6 +104,10 @@ def nontrivial(prop, r):
         return "emptyA=0 emptyC=0" in v
     if prop == "C14":
         return "inj=0" in v
+    if prop == "C09":
+        return "emptyA=0" in v
+    if prop == "C10":
+        return "isectempty=0" in v or "candempty=0" in v
     if prop == "C15":
         return "empty=0" in v
     return True
